@@ -84,7 +84,13 @@ def _spec_check(cfg="MC_Solver.cfg", max_pts=3):
     try:
         f = os.path.join(d, "sc.json")
         json.dump(sc, open(f, "w"))
-        lines, st = tlc.run_tlc("MC_Solver", cfg, {"SCENARIO_FILE": f}, timeout=1500)
+        if cfg == "MC_Solver.cfg":
+            # with the per-action counts (vacuity audit: an action never taken was never checked)
+            acts, st = tlc.action_coverage("MC_Solver", cfg, {"SCENARIO_FILE": f}, timeout=1500)
+            acts = {a: n for a, n in acts.items() if a not in ("Init",) or True}
+            st = dict(st, actions_taken=acts, actions_never_taken=sorted(a for a, n in acts.items() if n == 0))
+        else:
+            lines, st = tlc.run_tlc("MC_Solver", cfg, {"SCENARIO_FILE": f}, timeout=1500)
         return st, len(sc)
     finally:
         import shutil
